@@ -8,7 +8,7 @@
    was lost after any read or write (F16). *)
 From Coq Require Import List ZArith Bool.
 Import ListNotations.
-From LC Require Import Base Locale.
+From LC Require Import Base Locale ThreadLocale ThreadLocaleFacts.
 Local Open Scope Z_scope.
 
 (* whatever numeric locale is in effect for the process or for the calling thread, the operation runs
@@ -55,3 +55,30 @@ Example C15_radix_matters :
   atof_radix (fun t => Z.of_nat (length t)) 46 [49; 46; 53] = 3 /\
   fmt_radix (fun _ _ _ => [49; 46; 53]) 44 0 0 false = [49; 44; 53].
 Proof. repeat split. Qed.
+
+(* ---- under concurrency (ThreadLocale.v: N threads, micro-steps Enter / Run / Leave, any schedule): every read or write whose
+   newlocale succeeded runs under '.', whatever the global locale, the thread's own locale and the other threads are doing; and
+   whenever no thread is inside a call, the process-wide locale and every thread's own locale are what they were initially ---- *)
+Theorem C15_radix_is_dot_under_interleaving : forall (D R : Type) g n0 f0 (sps : list (ThreadLocale.tspec D R)) sched i sp th k c z,
+  nth_error sps i = Some sp ->
+  nth_error (ThreadLocale.m_threads (ThreadLocale.run_machine sched (ThreadLocale.init_machine g n0 f0 sps))) i = Some th ->
+  nth_error (ThreadLocale.ts_prog sp) k = Some c -> nth_error (ThreadLocale.t_rad th) k = Some z ->
+  ThreadLocale.c_ok c = true -> z = 46.
+Proof.
+  intros D R g n0 f0 sps sched i sp th k c z H1 H2 H3 H4 Hok.
+  rewrite (ThreadLocaleFacts.bodies_run_under_dot D R g n0 f0 sps sched i sp th k c z H1 H2 H3 H4), Hok. reflexivity.
+Qed.
+Print Assumptions C15_radix_is_dot_under_interleaving.
+
+Theorem C15_restored_under_interleaving : forall (D R : Type) g n0 f0 (sps : list (ThreadLocale.tspec D R)) sched,
+  let m := ThreadLocale.run_machine sched (ThreadLocale.init_machine g n0 f0 sps) in
+  ThreadLocaleFacts.quiescent m ->
+  ThreadLocale.m_global m = g /\
+  (forall i sp, nth_error sps i = Some sp ->
+     exists th, nth_error (ThreadLocale.m_threads m) i = Some th /\ ThreadLocale.t_loc th = ThreadLocale.ts_loc sp).
+Proof.
+  intros D R g n0 f0 sps sched m Hq.
+  destruct (ThreadLocaleFacts.restoration_under_interleaving D R g n0 f0 sps sched Hq) as (A & _ & B & _).
+  split; [exact A | exact B].
+Qed.
+Print Assumptions C15_restored_under_interleaving.
